@@ -85,6 +85,7 @@ class Interp:
         s.fptosi_log = []
         s.table_loads = []
         s.round_log = []
+        s.undef_reads = 0
         s._lay = _LAYOUT.setdefault(id(module), {})
         s.div_by_sym = []
         s.watch = {}
@@ -202,7 +203,10 @@ class Interp:
             for k, (vv, sz) in o.cells.items():
                 if k <= ptr.off + b < k + sz and isinstance(vv, int):
                     val |= ((vv >> (8 * (ptr.off + b - k))) & 0xff) << (8 * b); found = True; break
-            if not found: ok = False; break
+            if not found:
+                # byte never written (e.g. the unused tail of a small-string buffer copied as a whole): reads as 0, counted
+                if any(k2 <= ptr.off + b < k2 + sz2 for k2, (vv2, sz2) in o.cells.items()): ok = False; break
+                s.undef_reads += 1
         if ok: return s.coerce(val, ty)
         if c is None and not any(k < ptr.off + size and ptr.off < k + sz for k, (vv, sz) in o.cells.items()):
             return UNDEF
